@@ -4,7 +4,8 @@ A program:  {"start": s, "till": t|None, "objs": {...}, "roots": [activity...]}
 An activity: {"name": str, "steps": [step...]}            (names unique per program)
 A step: {"op": ..., ...}.  See `Interp._step`.
 
-The log is a list of tuples (seq, act, idx, kind, now, payload) where idx is the
+The log is a list of tuples (seq, act, idx, kind, now, payload, k) where k is the number of
+activations started so far (the current one included) and idx is the
 step path (tuple) inside the activity.  Payloads hold no addresses / reprs.
 """
 import usim
@@ -63,6 +64,7 @@ def num(x):
 class Interp:
     def __init__(self, prog):
         self.prog = prog
+        self.probe = None
         self.log = []
         self.seq = 0
         self.tasks = {}
@@ -96,7 +98,7 @@ class Interp:
             now = time.now
         except RuntimeError:
             now = None
-        self.log.append((self.seq, act, idx, kind, now, payload))
+        self.log.append((self.seq, act, idx, kind, now, payload, self.probe.k if self.probe else -1))
         return self.seq
 
     def serial(self, obj):
@@ -611,6 +613,7 @@ def execute(prog, probe=None, wall=60, faults=(), sample=False):
     roots = it.roots()
     till = prog.get('till')
     probe = probe or Probe()
+    it.probe = probe
     if faults or sample:
         by_k = {}
         for f in faults:
